@@ -15,7 +15,7 @@ the long-term signer and stores that signature under SIG and the same bytes unde
 response context, the message it encodes and SIG/SREP; Responder::new certifies the online key and version it stores;
 (2) the Merkle leaf is the whole datagram buf[..num_bytes] for RfcDraft13 and the NONC value for Google;
 (3) the byte width of every tree hash (hash() result, padding node, PATH chunk width and modulus) equals the spec width
-(64 / 32); (4) leaf and node tweak constants equal 0x00 / 0x01 and are the first hashed element;
+(64 / 32); (4) leaf and node tweak constants equal 0x00 / 0x01 and are the first hashed element, and MerkleTree::hash digests every input slice whole and in order under self.algorithm;
 (5) make_response adds exactly SIG, NONC, PATH, SREP, CERT, INDX from the batch's SREP message, the request's nonce, get_paths(idx),
 this responder's certificate and the same idx, all taken from one enumerate().next() element that also supplies the
 destination address; (6) Google responses use encode(), RfcDraft13 encode_framed();
@@ -100,8 +100,8 @@ def run(ctx):
             ctx.check("message-tags", "make_dele/pubk-is-online-key", okpk, "PUBK = public key of this online key's signer",
                       "DELE.PUBK is %s" % fmt(fields[0][1]), md.loc(fields[0][2]))
             mint, maxt = fields[1][1], fields[2][1]
-            mi = W.obj_init(mint) if mint[0] == "obj" else mint
-            ma = W.obj_init(maxt) if maxt[0] == "obj" else maxt
+            mi = W.frozen_init(mint) if mint[0] == "obj" else mint
+            ma = W.frozen_init(maxt) if maxt[0] == "obj" else maxt
             okw = mi == ("repeat", ("int", 0), 8) and ma == ("repeat", ("int", 255), 8)
             ctx.check("message-tags", "make_dele/window-covers-every-midpoint", okw, "MINT = 8 x 0x00, MAXT = 8 x 0xff",
                       "delegation window is MINT=%s MAXT=%s" % (fmt(mi), fmt(ma)), ctx.loc(md))
@@ -237,25 +237,8 @@ def run(ctx):
                         mods.append(intval(W, ev3, ev3.op(st["rv"]["b"], (bl.idx, i))))
         ctx.check("node-width", "%s/path-length-modulus" % v, all(m == want for m in mods), "PATH length checked modulo %d" % want,
                   "PATH length modulus for %s is %s, expected %d" % (v, mods, want), ctx.loc(rp), nontrivial=bool(mods))
-    lt = ctx.item_bytes("roughenough::TREE_LEAF_TWEAK")
-    nt = ctx.item_bytes("roughenough::TREE_NODE_TWEAK")
-    ctx.check("tweaks", "constants", lt == bytes(sp["common"]["leaf_tweak"]) and nt == bytes(sp["common"]["node_tweak"]),
-              "leaf tweak 0x00, node tweak 0x01", "tweak constants are leaf=%r node=%r" % (lt, nt))
-    for name, tweak, nargs in (("hash_leaf", lt, 1), ("hash_nodes", nt, 2)):
-        fn = ctx.fn(MERKLE + "::" + name)
-        ev = W.ev(fn.path)
-        r = ev.ret()
-        okh = False
-        det = fmt(r)
-        if is_call(r, "MerkleTree::hash"):
-            arr = r[2][1]
-            if arr[0] == "agg" and arr[1] == "array":
-                elems = arr[2]
-                want = [("bytes", tweak)] + [("param", fn.path, i + 2) for i in range(nargs)]
-                okh = list(elems) == want
-                det = "hash([%s])" % ", ".join(fmt(e) for e in elems)
-        ctx.check("tweaks", "%s/input-order" % name, okh, "%s = %s" % (name, det),
-                  "%s hashes %s; expected [tweak %r, %s]" % (name, det, tweak, "leaf" if nargs == 1 else "left, right"), ctx.loc(fn))
+    import merkle_hash
+    merkle_hash.check_hashing(ctx, W, "tweaks")
 
     # the inclusion path of every position is complete only if the tree structure rules of C04 hold
     import audit_facts
